@@ -38,6 +38,7 @@ def main():
     ap.add_argument("--jobs", default="8")
     ap.add_argument("--patch", default="patch.diff")
     ap.add_argument("--demo", default="demo.py")
+    ap.add_argument("--reset", action="store_true", help="forget the verdicts of earlier evaluations")
     a = ap.parse_args()
     sd = os.path.join(ROOT, "seeded", a.name)
     patch = os.path.join(sd, a.patch)
@@ -45,6 +46,8 @@ def main():
     meta_path = os.path.join(sd, "meta.json")
     meta = json.load(open(meta_path)) if os.path.exists(meta_path) else {}
     ev = meta.setdefault("evaluation", {})
+    if a.reset:
+        ev.pop("checks", None)
     base = f"/tmp/se_{a.name}"
     shutil.rmtree(base, ignore_errors=True)
     clean, mut = os.path.join(base, "clean"), os.path.join(base, "mut")
